@@ -90,6 +90,7 @@ package nfs
 //@   ensures [H1-validated] result2 == 0 ==> goodIp(result1) && matches(result1, fh) && heldOnly(result1.Inum) @C08
 //@   ensures [F6-notshrinking] result2 == 0 ==> !result1.IsShrinking() @C05
 //@   ensures [err-nolocks] result2 != 0 ==> noLocks() @C06 @C09
+//@   ensures [Fn6-status] result2 == 0 || result2 == 70 || result2 == 10006 @C02
 //@   loop 0 invariant nfsInv(nfs) && noLocks() && dirtyInv() && allocInv() && !muheld[base(nfs.shrinkst.mu)]
 
 //@ specfunc bigMods() = true
@@ -157,6 +158,7 @@ package nfs
 //@   ensures [W2-nounstable] result.Status == 0 && !nfs.Unstable ==> lastst == 1 && result.Resok.Committed == 2 @C07
 //@   ensures [A1-aborted] result.Status != 0 ==> lastst == 3 || lastst == 4 @C09
 //@   ensures [Q2-wtmax] uint64(args.Count) >= 2093056 ==> result.Status != 0 @C19
+//@   ensureslocal [Q2-accepted] result.Status == 22 ==> uint64(args.Count) >= 2093056 || uint64(args.Count) > len(args.Data) || (ip != nil && ip.Kind != 1) @C19
 //@   ensures [Q3-maxfile] uint64(args.Offset) + uint64(args.Count) < uint64(args.Offset) || uint64(args.Offset) + uint64(args.Count) > 1073774592 ==> result.Status != 0 @C19 @C11
 //@   ensures [W6-count] result.Status == 0 ==> uint64(result.Resok.Count) <= uint64(args.Count) && uint64(args.Count) <= len(args.Data) @C07 @C11 @C02
 //@   ensures [L2-quiet] rpcPost(nfs) @C03 @C06 @C14
